@@ -7,6 +7,7 @@ import (
 
 var commands = map[string]func([]string){
 	"imports": cmdImports,
+	"cases":   cmdCases,
 }
 
 func main() {
